@@ -1,81 +1,148 @@
 (* C06 — MPI runs terminate and the root rank gets the single-process result.
-   Statements only; proofs are in Proofs/DispatchP.v and Proofs/MpiWriteP.v. *)
-From Verif Require Import Prelude Dispatch DispatchP.
+   Statements only; proofs are in Proofs/DispatchP.v and Proofs/MpiWriteP.v.
+
+   The positive theorems are about the REPAIRED algorithms (root fallback in
+   _mpi_iter_unordered, commit cd002ec: [fb = true]; patch dictionaries sent with ssend,
+   commit aeec5f0: [dm = Sync]); the [_refuted] theorems document the pinned algorithms
+   ([fb = false]; [dm = sm = Eager]) and the findings F13a / F13b. *)
+From Verif Require Import Prelude Dispatch DispatchP MpiWrite MpiWriteP.
 From Coq Require Import Permutation.
 Open Scope nat_scope.
 
 (* ---- task dispatch: _mpi_root_task / _mpi_worker_task / _mpi_iter_unordered ----
-   for every task list, every number of workers n, every rank set `allowed`, both send modes
-   (md = Eager | Sync) and every schedule (= every path of the relation [step]) *)
+   for every task list, every number of workers n, every rank set `allowed`, with and without
+   root fallback (fb), both send modes (md = Eager | Sync) and every schedule (= every path of
+   the relation [step]) *)
 
 (* the executable step used to replay real communication logs is exactly the relation *)
 Theorem C06_step_with_sound :
-  forall (T R : Type) (f : T -> R) allowed md c (s s' : st T R),
-  step_with f allowed md c s = Some s' -> step f allowed md s s'.
+  forall (T R : Type) (f : T -> R) allowed fb md c (s s' : st T R),
+  step_with f allowed fb md c s = Some s' -> step f allowed fb md s s'.
 Proof. exact @step_with_sound. Qed.
 Print Assumptions C06_step_with_sound.
 
 Theorem C06_step_with_complete :
-  forall (T R : Type) (f : T -> R) allowed md (s s' : st T R),
-  step f allowed md s s' -> exists c, step_with f allowed md c s = Some s'.
+  forall (T R : Type) (f : T -> R) allowed fb md (s s' : st T R),
+  step f allowed fb md s s' -> exists c, step_with f allowed fb md c s = Some s'.
 Proof. exact @step_with_complete. Qed.
 Print Assumptions C06_step_with_complete.
 
 (* termination: every step decreases the measure; an execution from ANY state s has at most
    [mu s] steps *)
 Theorem C06_dispatch_terminates :
-  forall (T R : Type) (f : T -> R) allowed md k (s s' : st T R),
-  steps f allowed md k s s' -> k + mu s' <= mu s.
+  forall (T R : Type) (f : T -> R) allowed fb md k (s s' : st T R),
+  steps f allowed fb md k s s' -> k + mu s' <= mu s.
 Proof. exact @dispatch_terminates. Qed.
 Print Assumptions C06_dispatch_terminates.
 
 (* no deadlock, eager and synchronous sends *)
 Theorem C06_dispatch_progress :
-  forall (T R : Type) (f : T -> R) allowed md tasks n (s : st T R),
-  reach f allowed md (init tasks n) s -> pc s <> RDone -> exists s', step f allowed md s s'.
+  forall (T R : Type) (f : T -> R) allowed fb md tasks n (s : st T R),
+  reach f allowed fb md (init tasks n) s -> pc s <> RDone -> exists s', step f allowed fb md s s'.
 Proof. exact @dispatch_progress. Qed.
 Print Assumptions C06_dispatch_progress.
 
 (* hence every partial run can be completed: all ranks pass the final barrier *)
 Theorem C06_dispatch_reaches_done :
-  forall (T R : Type) (f : T -> R) allowed md tasks n (s : st T R),
-  reach f allowed md (init tasks n) s -> exists s', reach f allowed md s s' /\ pc s' = RDone.
+  forall (T R : Type) (f : T -> R) allowed fb md tasks n (s : st T R),
+  reach f allowed fb md (init tasks n) s -> exists s', reach f allowed fb md s s' /\ pc s' = RDone.
 Proof. exact @dispatch_reaches_done. Qed.
 Print Assumptions C06_dispatch_reaches_done.
 
-(* exactly once + root result, provided some worker rank is in `ranks` *)
-Theorem C06_dispatch_exactly_once :
+(* TOTAL statement for the repaired algorithm (root fallback): for EVERY rank set, also the
+   empty one (max_workers = 1), a finished run executed every task exactly once and the root
+   yielded exactly map f tasks *)
+Theorem C06_dispatch_exactly_once_total :
   forall (T R : Type) (f : T -> R) allowed md tasks n (s : st T R),
-  reach f allowed md (init tasks n) s -> pc s = RDone ->
+  reach f allowed true md (init tasks n) s -> pc s = RDone ->
+  Permutation tasks (ran s) /\ Permutation (map f tasks) (got s).
+Proof. exact @dispatch_exactly_once_total_repaired. Qed.
+Print Assumptions C06_dispatch_exactly_once_total.
+
+(* both algorithms: exactly once + root result, provided some worker rank is in `ranks` *)
+Theorem C06_dispatch_exactly_once :
+  forall (T R : Type) (f : T -> R) allowed fb md tasks n (s : st T R),
+  reach f allowed fb md (init tasks n) s -> pc s = RDone ->
   has_allowed_below allowed (length (ws s)) ->
   Permutation tasks (ran s) /\ Permutation (map f tasks) (got s).
 Proof. exact @dispatch_exactly_once. Qed.
 Print Assumptions C06_dispatch_exactly_once.
 
-(* max_workers = 1: ranks = {0}, no worker index is allowed; then in EVERY reachable state
-   nothing was executed or yielded and all tasks are still pending ... *)
-Theorem C06_dispatch_no_worker_general :
+(* the pinned algorithm (no fallback) with max_workers = 1: ranks = {0}, no worker index is
+   allowed; then in EVERY reachable state nothing was executed or yielded and all tasks are
+   still pending ... *)
+Theorem C06_dispatch_no_worker_general_cur :
   forall (T R : Type) (f : T -> R) allowed md tasks n (s : st T R),
-  (forall k, allowed k = false) -> reach f allowed md (init tasks n) s ->
+  (forall k, allowed k = false) -> reach f allowed false md (init tasks n) s ->
   got s = [] /\ ran s = [] /\ pend s = tasks.
-Proof. exact @dispatch_no_worker_general. Qed.
-Print Assumptions C06_dispatch_no_worker_general.
+Proof. exact @dispatch_no_worker_general_cur. Qed.
+Print Assumptions C06_dispatch_no_worker_general_cur.
 
-(* ... so the property is false of the faithful model of the current code (finding F13a):
-   a complete run, all ranks returned, root result empty *)
+(* ... so the property was false of the faithful model of the pinned code (finding F13a,
+   repaired by cd002ec): a complete run, all ranks returned, root result empty *)
 Theorem C06_dispatch_no_worker_refuted :
   forall md, exists s : st nat nat,
-    reach c06_f (c06_allowed [0]) md (init [10; 20; 30] 2) s /\ pc s = RDone /\
+    reach c06_f (c06_allowed [0]) false md (init [10; 20; 30] 2) s /\ pc s = RDone /\
     got s = [] /\ ran s = [] /\ pend s = [10; 20; 30] /\
     ~ Permutation (map c06_f [10; 20; 30]) (got s).
 Proof. exact dispatch_no_worker_refuted. Qed.
 Print Assumptions C06_dispatch_no_worker_refuted.
 
-(* non-vacuity: a concrete synchronous run on 2 workers and 3 tasks in which worker 1 answers
-   first; the checker used by the harness accepts it (code 0) *)
+(* ---- MPI write pipeline: reader / k workers / writer (write_patches, MPI branch) ----
+   for every chunk list (any split of every chunk), every number k of further processing
+   ranks and every schedule; dm = send mode of the patch dictionaries, sm = of the sentinel *)
+
+(* the repaired pipeline: dictionaries sent with ssend, the sentinel eagerly or synchronously,
+   ANY number of sending ranks: when the writer stops it has stored every record and no
+   dictionary is left unreceived *)
+Theorem C06_write_ssend_no_loss :
+  forall (A : Type) sm (cs : list (chunk A)) k (s : wst A),
+  wreach Sync sm (winit cs k) s -> stopped s = true ->
+  Permutation (all_recs cs) (stored s) /\ unreceived s = [].
+Proof. exact @write_ssend_no_loss. Qed.
+Print Assumptions C06_write_ssend_no_loss.
+
+Theorem C06_write_sync_no_loss :
+  forall (A : Type) (cs : list (chunk A)) k (s : wst A),
+  wreach Sync Sync (winit cs k) s -> stopped s = true ->
+  Permutation (all_recs cs) (stored s) /\ unreceived s = [].
+Proof. exact @write_sync_no_loss. Qed.
+Print Assumptions C06_write_sync_no_loss.
+
+(* eager dictionary sends, the reader is the only sending rank (max_workers = 2): per-sender
+   FIFO suffices *)
+Theorem C06_write_eager_single_sender_no_loss :
+  forall (A : Type) sm (cs : list (chunk A)) (s : wst A),
+  wreach Eager sm (winit cs 0) s -> stopped s = true ->
+  Permutation (all_recs cs) (stored s) /\ unreceived s = [].
+Proof. exact @write_eager_single_sender_no_loss. Qed.
+Print Assumptions C06_write_eager_single_sender_no_loss.
+
+(* in every mode, whatever is not stored when the writer stops is an unreceived dictionary *)
+Theorem C06_write_stopped_rest :
+  forall (A : Type) dm sm (cs : list (chunk A)) k (s : wst A),
+  wreach dm sm (winit cs k) s -> stopped s = true ->
+  Permutation (all_recs cs) (stored s ++ unreceived s).
+Proof. exact @stopped_rest. Qed.
+Print Assumptions C06_write_stopped_rest.
+
+(* the pinned pipeline (plain sends, buffered), two sending ranks: a complete run (all ranks
+   passed the final barrier) in which the writer matched the reader's sentinel while the other
+   rank's dictionary was still queued: record 2 is lost (finding F13b, repaired by aeec5f0) —
+   the worker barrier orders calls, not deliveries *)
+Theorem C06_write_eager_overtake_refuted :
+  exists s : wst nat,
+    wreach Eager Eager (winit f13b_chunks 1) s /\ rp s = WDone /\ stopped s = true /\
+    wch s = [[Dict [2]]] /\ stored s = [1] /\
+    ~ Permutation (all_recs f13b_chunks) (stored s).
+Proof. exact write_eager_overtake_refuted. Qed.
+Print Assumptions C06_write_eager_overtake_refuted.
+
+(* non-vacuity: the repaired algorithm on world size 3 with max_workers = 1 and three tasks,
+   synchronous sends — both workers get the sentinel, the root runs the tasks itself; the
+   checker used by the harness accepts the run (code 0) *)
 Example C06_concrete :
-  c06_dispatch_case true 2 [0; 1; 2] [0; 1; 2]
-    [CInitTask 0; CWTask 0; CInitTask 1; CWTask 1; CInitDone; CRecvMore 1; CWTask 1;
-     CRecvLast 0; CWEoq 0; CRecvLast 1; CWEoq 1; CExit; CBar]
-    [4; 1; 7] [0; 1; 2] = 0.
+  c06_dispatch_case true true 2 [0] [10; 20; 30]
+    [CInitEoq 0; CWEoq 0; CInitEoq 1; CWEoq 1; CInitDone; CFallback; CFallback; CFallback; CExit; CBar]
+    [31; 61; 91] [10; 20; 30] = 0.
 Proof. vm_compute. reflexivity. Qed.
